@@ -2,6 +2,20 @@ package main
 
 import "verif/harness/lib"
 
+// genConvOp: a conversion with a random function, or (1 in 6) the item-wise identity through
+// compose's wrappers (Via "any": toAnyStreamReader + the interface path of unpackStreamReader;
+// "key": withKey and back)
+func genConvOp(r *lib.Rng, h int) Op {
+	if r.Chance(1, 6) {
+		v := "any"
+		if r.Chance(1, 2) {
+			v = "key"
+		}
+		return Op{K: "conv", H: h, F: &CFn{}, Via: v}
+	}
+	return Op{K: "conv", H: h, F: genCFn(r)}
+}
+
 func genCFn(r *lib.Rng) *CFn {
 	f := &CFn{Add: uint64(1000 * (1 + r.Intn(5)))}
 	if r.Chance(1, 2) {
@@ -73,12 +87,19 @@ func genSeq(r *lib.Rng, tier string) *Case {
 	}
 	val := uint64(0)
 	nextVal := func() uint64 { val++; return val }
+	// the zero value is a chunk like any other (1 value in 10)
+	zeroOr := func(v uint64, isErr bool) uint64 {
+		if !isErr && r.Chance(1, 10) {
+			return 0
+		}
+		return v
+	}
 	newSource := func() {
 		if r.Chance(1, 2) {
 			n := r.Intn(6)
 			xs := make([]uint64, n)
 			for i := range xs {
-				xs[i] = nextVal()
+				xs[i] = zeroOr(nextVal(), false)
 			}
 			emit(Op{K: "array", Xs: xs, Spare: spare(r)})
 			return
@@ -89,6 +110,7 @@ func genSeq(r *lib.Rng, tier string) *Case {
 		n := r.Intn(cp + 1)
 		for i := 0; i < n; i++ {
 			x := Item{V: nextVal(), Err: r.Chance(1, 7)}
+			x.V = zeroOr(x.V, x.Err)
 			emit(Op{K: "send", H: hp, X: &x})
 			sh.pipes[hp].attempts++
 		}
@@ -114,7 +136,7 @@ func genSeq(r *lib.Rng, tier string) *Case {
 			}
 			emit(o)
 		case k < 5 && len(open) > 0 && len(sh.hs) < maxH: // convert
-			emit(Op{K: "conv", H: open[r.Intn(len(open))], F: genCFn(r)})
+			emit(genConvOp(r, open[r.Intn(len(open))]))
 		case k < 7: // merge of array-backed readers
 			arrs := liveHandles(sh, func(_ int, h *shadowH) bool { return h.kind == "arr" && !h.closed })
 			switch {
@@ -175,6 +197,7 @@ func genSeq(r *lib.Rng, tier string) *Case {
 			p := sh.pipes[hp]
 			if p.attempts < p.cap && r.Chance(2, 3) {
 				x := Item{V: nextVal(), Err: r.Chance(1, 7)}
+				x.V = zeroOr(x.V, x.Err)
 				emit(Op{K: "send", H: hp, X: &x})
 				p.attempts++
 			} else {
@@ -245,6 +268,9 @@ func genArr(r *lib.Rng, tier string) *Case {
 		for i := range xs {
 			val++
 			xs[i] = val
+			if r.Chance(1, 10) {
+				xs[i] = 0 // the zero value is a chunk like any other
+			}
 		}
 		emit(Op{K: "array", Xs: xs, Spare: spare(r)})
 	}
@@ -374,7 +400,7 @@ func genConc(r *lib.Rng, tier string) *Case {
 		case k < 4:
 			emit(Op{K: "copy", H: live[r.Intn(len(live))], N: 2 + r.Intn(2), Via: via(r)})
 		case k < 7:
-			emit(Op{K: "conv", H: live[r.Intn(len(live))], F: genCFn(r)})
+			emit(genConvOp(r, live[r.Intn(len(live))]))
 		default:
 			if len(live) >= 2 {
 				n := 2 + r.Intn(2)
@@ -415,7 +441,11 @@ func genConc(r *lib.Rng, tier string) *Case {
 		}
 		w := Writer{HP: hp, Items: []Item{}}
 		for i := 0; i < n; i++ {
-			w.Items = append(w.Items, Item{V: uint64(hp*100 + i + 1), Err: r.Chance(1, 8)})
+			x := Item{V: uint64(hp*100 + i + 1), Err: r.Chance(1, 8)}
+			if !x.Err && r.Chance(1, 12) {
+				x.V = 0 // the zero value is a chunk like any other
+			}
+			w.Items = append(w.Items, x)
 		}
 		// a late writer sends only after every derived reader has been closed: possible
 		// only if none of those readers waits for it
